@@ -166,7 +166,8 @@ class C17(Prop):
         "standard_code_by_amino_acid", "tables_differ_as_documented", "read_never_faults", "read_never_faults_hyps", "write_never_faults", "write_never_faults_hyps", "read_ok_is_code", "read_ok_is_complete", "decode_digicodon_bounds", "decode_digicodon_inverse",
         "compare_spec", "process_orf_spec", "translation_out_of_alphabet_faults", "short_windows",
         "reverse_strand_windows", "windowed_eq_full_length", "workstate_options", "six_frame_translation", "complement_closed",
-        "short_sequences_ignored", "strand_leaves_idle")]
+        "short_sequences_ignored", "strand_leaves_idle", "translation_total", "initiator_total", "empty_rows", "alt_code_table_spec",
+        "file_numbering", "windowed_file_eq_full_length")]
     claimed = True
     technique = ("Lean 4 proof: built-in tables regenerated from the tree = hand-pinned NCBI tables by `decide`; general theorems (any table, any "
                  "degeneracy matrix) that the triple loop computes the shared amino acid / all-initiators; ORF machine modelled and tied by exact "
@@ -184,27 +185,37 @@ class C17(Prop):
                   "Independently of the pinned strings, tables_differ_as_documented / standard_code_by_amino_acid (`decide` over the regenerated tables) state every table as its "
                   "documented differences from the standard code + its initiation codons, and the standard code by amino acid. read_never_faults: the column loop of esl_gencode_Read "
                   "with every array access checked never leaves its arrays, for any bytes; read_ok_is_code + read_ok_is_complete: whatever bytes Read accepts, all 64 codons were assigned exactly once by the file to an amino acid or the stop, all 20 amino acids and a stop occur, flags 0/1, id -1; write_never_faults: Write on any well-formed code object reads inside its arrays; translation_out_of_alphabet_faults; decode_digicodon_bounds (every int), decode_digicodon_inverse, compare_spec, process_orf_spec "
-                  "(emission iff length >= minlen, numbering, frame label, coordinates).")
+                  "(emission iff length >= minlen, numbering, frame label, coordinates). Round 6: translation_total / initiator_total (GetTranslation / IsInitiator on ANY three byte codes: exactly which "
+                  "inputs read outside degen[], -1 / FALSE behind a gap, * or ~); alt_code_table_spec (DumpAltCodeTable as a function of the table array); whole sequences and files through the two main "
+                  "loops of esl-translate.c under every WorkstateCreate option combination: six_frame_translation (frames 1-3 = finder over the sequence, 4-6 = finder over the reverse complement from L "
+                  "downwards, nothing under --crick / --watson, no other label), reverse_strand_windows (the windows ReadWindow cuts from the 3' end of the top strand = the windows of the reverse "
+                  "complement), windowed_eq_full_length + windowed_file_eq_full_length (-W = full length, per sequence and per file, any window size != 1), short_sequences_ignored, file_numbering "
+                  "(orf1..n without gap over strands and sequences), workstate_options.")
     level_note = ("Trusted: Lean kernel + standard axioms; table dumper; hand model fidelity checked by the differential run (all 18^3 triplets x 18 tables "
                   "x 3 settings every run). The one-frame finder is proved equal to the declarative 'split the frame at stops, drop the codons before the first "
                   "initiator, keep >= minlen' (orf_frame_declarative). Read(Write t) = t is a `decide` theorem over all 18 tables x 3 settings on the "
                   "hand model of esl_gencode_Read/Write (fileparser line skipping + the five anchored regexps), tied by the differential run on "
-                  "valid and damaged NCBI texts. Numbering orf1..n and the order of the records (end coordinates strictly advancing in reading direction) are theorem orf_numbering_and_order.")
+                  "valid and damaged NCBI texts. Numbering orf1..n and the order of the records (end coordinates strictly advancing in reading direction) are theorem orf_numbering_and_order. "
+                  "The main loops do_by_sequences / do_by_windows of miniapps/esl-translate.c are #included into the harness and run on FASTA files (op xlate) with the program's own option table; "
+                  "the model of do_by_windows takes the window sizes esl_sqio_ReadWindow delivers (4092, ..., rest) as given (C04).")
     diverge_is_violation = True
     trusted_base = ["table dumper translate/tables_gencode.py (#includes esl_gencode.c, prints esl_transl_tables[])",
                     "hand model of esl_gencode.c tied by exact differential run (h_gencode.c, ASan+UBSan)",
                     "the nucleotide/amino alphabets are the C08 constructor models (C08: ctor_reproduces_tables)"]
     assumptions = ["public functions of esl_gencode.c: Create/Destroy/Set/SetInitiatorAny/SetInitiatorOnlyAUG/Read/Write/GetTranslation/IsInitiator/DecodeDigicodon/DumpAltCodeTable/Compare/"
-                   "WorkstateCreate/WorkstateDestroy/ProcessStart/ProcessPiece/ProcessOrf/ProcessEnd are all driven against the model with exact comparison; DumpAltCodeTable is formatting only (no theorem); "
-                   "GetTranslation/IsInitiator/DecodeDigicodon on codes >= Kp / indices outside 0..63 are outside their contracts (the model says which inputs fault: decode_digicodon_bounds; not run against the code, "
-                   "where an ASan death would count as a violation)",
+                   "WorkstateCreate/WorkstateDestroy/ProcessStart/ProcessPiece/ProcessOrf/ProcessEnd are all driven against the model with exact comparison, as are the static do_by_sequences/do_by_windows of "
+                   "miniapps/esl-translate.c (its main() set-up is replayed by the harness: option table, -c, -m/-M); "
+                   "GetTranslation/IsInitiator on codes >= Kp are driven wherever the model says the loop never dereferences them (behind a gap, * or ~: translation_total); the inputs the model says fault "
+                   "(a code >= Kp reached by the loop; DecodeDigicodon outside its bounds: decode_digicodon_bounds) are outside the contracts and not run against the code, where an ASan death would count as a violation",
+                   "esl-translate's main(): command-line parsing, file opening and the output of the records with esl_sqio_Write are C13's / C02's business; the harness collects the records in wrk->orf_block",
                    "esl_gencode_Read: line splitting + the five anchored regular expressions are modelled by matchLine (total by construction) and tied by exact comparison on byte-level damaged files (readm: flips, "
                    "insertions, deletions, truncation, duplicated / swapped lines, NUL / high bytes / CR / tab / form feed)",
                    "esl_sqio_ReadWindow delivers windows of the strand in reading order with a 2-residue context (C04); the harness builds those windows itself",
                    "the first window of a sequence has >= 2 residues (generated: 2, 3, ...; esl-translate uses a fixed window of 4092); a first window of 1 residue makes ProcessStart read the sentinel: outside the contract",
                    "allocation never fails"]
     rule = ("cases = (table, initiator setting) x {all 18^3 triplets; DNA sequences with stops/initiators/degenerate runs at the ends and inside, "
-            "min lengths, strands, window splits}; non-trivial = an ORF list with at least one ORF or a full triplet table; distinct by output trace")
+            "min lengths, strands, window splits; whole FASTA files (sequences of 0..5 residues, all-degenerate sequences, lengths around the 4092 window) through esl-translate's two main loops x "
+            "every option combination}; non-trivial = an ORF list with at least one ORF or a full triplet table; distinct by output trace")
     quick_budget_s = 60
 
     def generated(self, ctx):
@@ -279,6 +290,18 @@ class C17(Prop):
             orf("CTGAAATGA", init="aug", using=2), orf("AAACTGAAATGACC", init="table", using=1, cuts="3,1,1,1,1,1,1,1,1,1,1,1"),
             orf("ATGAAATAAATGCCCTAGG", cuts="3,3,3,3,3,4"), orf("ATGAAATAAATGCCCTAGG", cuts="4,5,10"), orf("TTATTTCAT", strand="c"),
             orf("ATGRAYTAR", minlen=1), orf("ATGTRATAA", minlen=1), orf("ATG-AATAA", minlen=1)]})
+        # GetTranslation / IsInitiator on codes outside the alphabet that the loop never dereferences (translation_total: a gap, `*` or `~`
+        # in front ends the loop at once): every byte value behind an empty first code, and behind an empty second code
+        ops = []
+        odd = (0, 4, 15, 17, 18, 31, 32, 127, 128, 254, 255)
+        for init in ("table", "any", "aug"):
+            for a in (4, 16, 17):
+                for b in odd:
+                    for c in odd: ops.append("codon id=1 init=%s a=%d b=%d c=%d" % (init, a, b, c))
+            for a in (0, 3, 5, 15):
+                for b in (4, 16, 17):
+                    for c in odd: ops.append("codon id=1 init=%s a=%d b=%d c=%d" % (init, a, b, c))
+        out.append({"name": "codon-total", "sticky": 0, "ops": ops})
         # whole files through the real main loops of esl-translate.c: every combination of --watson/--crick/-m/-M/-W, minlen 0/1,
         # sequences of 0..5 residues, every table x initiator option on a sequence made only of degenerate residues
         import random as _r
@@ -516,6 +539,10 @@ class C17(Prop):
                                                                                  rng.choice(["table", "any", "aug"]), rng.randrange(2), rng.choice(["", "", " nt2=rna", " nt=rna nt2=rna"])))
             if rng.random() < 0.2:
                 ops.append("codon id=%d init=%s a=%d b=%d c=%d" % (tid, rng.choice(["table", "any", "aug"]), rng.randrange(18), rng.randrange(18), rng.randrange(18)))
+            if rng.random() < 0.1:
+                if rng.random() < 0.5: a, b = rng.choice([4, 16, 17]), rng.randrange(256)
+                else: a, b = rng.choice([0, 1, 2, 3, 5, 6, 7, 8, 9, 10, 11, 12, 13, 14, 15]), rng.choice([4, 16, 17])
+                ops.append("codon id=%d init=%s a=%d b=%d c=%d%s" % (tid, rng.choice(["table", "any", "aug"]), a, b, rng.randrange(256), rng.choice(["", " nt=rna"])))
             out.append({"name": "gen%d" % i, "ops": ops, "sticky": 0})
         return out
 
@@ -647,7 +674,11 @@ class C17(Prop):
                 if not l.startswith("ok same id=-1 desc=-"):
                     return Failure("monitor", "table %d (%s) written in NCBI form and read back: %s" % (tid, init, l[:60]))
             elif name == "codon":
-                r = kv(l); wa, wi = translate(basic, ini, int(d["a"]), int(d["b"]), int(d["c"]))
+                abc = (int(d["a"]), int(d["b"]), int(d["c"]))
+                if max(abc) >= 18:      # only generated behind a code that stands for nothing: -1 (255 as ESL_DSQ), not an initiator
+                    r = kv(l); wa, wi = 255, 0
+                else:
+                    r = kv(l); wa, wi = translate(basic, ini, *abc)
                 if (int(r["aa"]) % 256) != wa or (int(r["init"]) != 0) != (wi != 0):
                     return Failure("monitor", "codon: %s vs specification aa=%d init=%d" % (l, wa, wi))
             elif name == "orfs":
